@@ -252,10 +252,13 @@ class Parameter(Accessible):
         """return a clone of ourselfs with inherited properties"""
         res = type(self)(**kwds)
         res.name = self.name
+        properties = dict(properties)
+        datatype = properties.pop('datatype', None)
+        if datatype is not None:
+            # copy first: datatype properties must not be applied to the given datatype
+            res.datatype = datatype.copy()
         res.init(properties)
         res.init(res.ownProperties)
-        if 'datatype' in self.propertyValues:
-            res.datatype = res.datatype.copy()
         res.finish()
         return res
 
